@@ -967,6 +967,17 @@ func main() {
 		cleanup()
 		c.Finish("replay of one recorded program", false)
 	}
+	// two sessions, sequentially interleaved, with DDL committed by the second one (package sqlconc, twosess.go)
+	{
+		d, share := 4, 15
+		if c.Thorough() {
+			d = 5
+		}
+		seqDeadline := c.Deadline
+		c.Deadline = c.Start.Add(fullDeadline.Sub(c.Start) * time.Duration(share) / 100)
+		sqlconc.TwoSessions(c, "C13", d, nil)
+		c.Deadline = seqDeadline
+	}
 	// engine front: every program up to fullDepth; one more statement (lastOps) for programs that start with BEGIN
 	fullDepth, extra, lastOps, frontLen := 4, []int{modeLast}, []int{opCommit, opRollback}, 3
 	if c.Thorough() {
@@ -992,7 +1003,7 @@ func main() {
 		c.CapHit("sequential phases stopped at their share of the time budget")
 	}
 	cleanup()
-	c.Finish(fmt.Sprintf("engine front: every program over the %d-statement alphabet up to engine_full_depth_completed statements, plus the programs starting with BEGIN extended by one more statement (quick: COMMIT/ROLLBACK; thorough: any), each on a fresh store through sql.Engine.Exec in the observation modes all/last, against the reference interpreter: statement results, affected rows, generated keys, in-transaction view and outside view after every statement, Cancel of an abandoned transaction, close+reopen. Wire fronts (pgwire, session): every program over the 11-statement sub-alphabet up to front_*_length_completed. distinct = (front/mode, program) pairs executed", nOps), !c.Expired())
+	c.Finish(fmt.Sprintf("engine front: every program over the %d-statement alphabet up to engine_full_depth_completed statements, plus the programs starting with BEGIN extended by one more statement (quick: COMMIT/ROLLBACK; thorough: any), each on a fresh store through sql.Engine.Exec in the observation modes all/last, against the reference interpreter: statement results, affected rows, generated keys, in-transaction view and outside view after every statement, Cancel of an abandoned transaction, close+reopen. Wire fronts (pgwire, session): every program over the 11-statement sub-alphabet up to front_*_length_completed. Two-sessions front: every sequential interleaving up to two_sessions_depth_completed statements of a session holding a read-write transaction with a session committing DDL/DML in autocommit, fresh engine per sequence, committed catalog and rows compared after the sequence and after reopen. distinct = (front/mode, program) pairs executed", nOps), !c.Expired())
 }
 
 func runFront(r replay) bool {
